@@ -41,6 +41,10 @@ def datatype_schemas():
     out.append(SCHEMA(types=[TYPE("t1", [K("k1", attribute="_level"), MK("m1", "integer", attribute="__"),
                                          K("+", attribute="_rest"), K("k-2", attribute="given")], datatype="wrap")],
                       children=[K("k1", attribute="_top"), MSEC("t1", "*", "_ones"), SEC("t1", "+", "one_")]))
+    # defaults given as <default> elements are the element's text (outer white space dropped, inner white space kept)
+    out.append(SCHEMA(types=[TYPE("t1", [MK("m1", defaults=["a  b", "x\ty", "p q"]),
+                                         K("+", attribute="w", defaults=[("d1", "p   q"), ("d2", "r s")])])],
+                      children=[MSEC("t1", "*", "ones"), MK("m0", defaults=["two   words"]), K("k0")]))
     # one abstract multisection slot filled by types whose section datatypes differ: each value passes through
     # the datatype of its own type
     out.append(SCHEMA(types=[schemas.ABS("ab"), TYPE("ia", [K("k1")], implements="ab", datatype="wrap"),
@@ -129,7 +133,7 @@ def run(chk):
         mod = loadgen.mc_module("MC_C01_G", loadgen.generated_block(c01._RECS, vocabs, keytab, convtab))
         cfg = flow.cfg_text(constants={"MaxLines": maxlines}, overrides=loadgen.ZLOAD_OVERRIDES,
                             invariants=["ZTypeOK", "AcceptIffConforms", "TreeIsValueTree", "RejectIsConfigError", "Emit"])
-        flow.run_g(chk, mod, cfg, replay_g, nontrivial=c01.nontrivial_g, sample_every=40009, timeout=3000)
+        flow.run_g(chk, mod, cfg, replay_g, nontrivial=c01.nontrivial_g, sample_every=40009, timeout=3000, workers=10)
 
     part(datatype_schemas(), 18 if quick else 24, 3 if quick else 4)
     fam = schemas.family(chk.seed + 1, 4 if quick else 20)
